@@ -195,7 +195,7 @@ class StateVector(NDArrayOperatorsMixin):
             ):
                 _logger.debug('Failed pure state criteria.')
                 return False
-        except ValueError:
+        except (ValueError, TypeError):
             _logger.debug('Failed pure state criteria.')
             return False
 
